@@ -31,6 +31,15 @@ INFO = {
  'i1': ('C15', 'free report_mismatch(): the signature of a matching saturated expectation printed only under the heading (first one only)', 'two saturated expectations that both match the rejected call'),
  'i2': ('C06', 'sequence_type::is_completed(): looks at the first registered expectation only', 'sequence whose head is satisfied while a later registered expectation is below its lower bound'),
  'i3': ('C14', 'list_elem move assignment: `next = r.next` -> `next = r.prev`', 'movable mock with two or more expectations is moved; the ring of the new object is corrupt'),
+ 'j1': ('C10', 'comparison functor greater_equal: `x >= y` -> `!(x < y)`', 'unordered operands: ge(v) on double with a NaN argument or operand (or a partially ordered user type)'),
+ 'j2': ('C13', 'lifetime_monitor::notify(): `died = true` moved below the sequence check, out-of-sequence branch returns', 'sequenced REQUIRE_DESTRUCTION, object destroyed out of sequence, reporter that returns from the non-fatal report'),
+ 'j3': ('C16', 'two-argument set_reporter(): exchange replaced by assignment, the returned pair carries the NEW ok-reporter', 'save / replace / restore idiom using the returned pair'),
+ 'k1': ('C02', 'sequence_matchers<N>::order(): the last listed sequence cost wins instead of the largest', 'expectation in two sequences with different non-zero costs (smaller one listed last) and a competitor whose cost lies between'),
+ 'k2': ('C04', 'run_actions(): increment_call() before the sequence check (same site as b1/c3)', 'out-of-sequence call rejected and caught, then the expectation ends its life below its lower bound: no report'),
+ 'k3': ('C07', 'run_actions(): forbidden check moved after the sequence check and increment_call()', 'NAMED forbidding expectation is hit, then is_saturated()/is_satisfied() are queried'),
+ 'l1': ('C17', '~tracer(): set_tracer(nullptr) instead of set_tracer(previous)', 'two tracers alive, the inner one dies, then an accepted call'),
+ 'l2': ('C18', '~stream_sentry(): os.setf(flags, basefield|adjustfield) instead of os.flags(flags)', 'destination stream carrying flags outside base/adjust (boolalpha, showbase, ...) and later output on it'),
+ 'l3': ('C11', 'range_is_permutation: matchers.erase(found) instead of swap-with-last + pop_back', 'three or more listed matchers, two of which overlap, a non-last one consumed first'),
 }
 rows = []
 for d in sorted(glob.glob(os.path.join(HERE, 'seeded', '*'))):
